@@ -67,16 +67,29 @@ func genScript(seed int64, n int, T uint32) []sop {
 	// a block of sibling children whose type infos repeat (two or more distinct types, each used at
 	// least twice, in shuffled order) inside ONE slab, committed at once: the shared extra-data
 	// section and its type-info references must come out the same on every run (C04)
-	if rng.Intn(4) != 0 {
-		tys := []uint64{50, 50, 51, 51, 52, 52, 53}
-		rng.Shuffle(len(tys), func(i, j int) { tys[i], tys[j] = tys[j], tys[i] })
-		for _, t := range tys[:4+rng.Intn(4)] {
-			ops = append(ops, sop{kind: "achild", i: uint64(rng.Intn(alen + 1)), cty: t, cn: rng.Intn(2), cm: rng.Intn(3) == 0})
+	// Always present; in every block at least two distinct types are each used twice by children
+	// of the SAME kind (array children and map children keep separate extra-data kinds), the rest
+	// is random.
+	{
+		blk := []struct {
+			ty uint64
+			cm bool
+		}{{50, false}, {51, false}, {50, false}, {51, false}, {52, true}, {53, true}, {52, true}, {53, true}}
+		for x := rng.Intn(4); x > 0; x-- {
+			blk = append(blk, struct {
+				ty uint64
+				cm bool
+			}{uint64(50 + rng.Intn(4)), rng.Intn(2) == 0})
+		}
+		rng.Shuffle(len(blk), func(i, j int) { blk[i], blk[j] = blk[j], blk[i] })
+		for _, b := range blk {
+			ops = append(ops, sop{kind: "achild", i: uint64(rng.Intn(alen + 1)), cty: b.ty, cn: rng.Intn(2), cm: b.cm})
 			alen++
 		}
-		for j, t := range tys[:4] {
+		rng.Shuffle(len(blk), func(i, j int) { blk[i], blk[j] = blk[j], blk[i] })
+		for j, b := range blk {
 			k := hx.TV{Size: 9, Pay: uint64(200 + j)}
-			ops = append(ops, sop{kind: "mchild", k: k, cty: t, cn: rng.Intn(2), cm: rng.Intn(3) == 0})
+			ops = append(ops, sop{kind: "mchild", k: k, cty: b.ty, cn: rng.Intn(2), cm: b.cm})
 		}
 		ops = append(ops, sop{kind: "commit"})
 	}
